@@ -106,6 +106,9 @@ type scriptedLearner struct {
 }
 
 func (l *scriptedLearner) terminal(name string) {
+	// Learner calls are made while the scheduler holds its lock: a
+	// lock-held injection point.
+	l.a.w.injectUnderLock()
 	l.rec.Terminal = append(l.rec.Terminal, name)
 	l.rec.TerminalAt = l.a.w.stepNo
 	if len(l.rec.Terminal) > 1 {
